@@ -14,30 +14,34 @@ Definition never_missed_statement : Prop :=
     res q (apply i c s) <> res q s ->
     idx q s < idx q (apply i c s) /\ fires (ws q s) (touched i c s) = true.
 
-(* refuted: a service id registered again under another name keeps the old name's index row and
-   touches nothing the optimised CheckServiceNodes watch looks at (three more classes below; the
-   delete-tree class was repaired in /repo by d2fdf7c and is now covered by the theorem) *)
+(* refuted: ConnectServiceNodes reports the index row of the destination service, which a proxy
+   registration does not touch (two more classes below; the delete-tree, service-rename, check-move and
+   check-delete classes were repaired in /repo by d2fdf7c, 2c57fbe, e956cb5, 566301e and are now
+   covered by the theorems; see C06_repaired_classes) *)
 Theorem C06_never_missed_refuted : ~ never_missed_statement.
 Proof. exact never_missed_refuted_lemma. Qed.
 Theorem C06_never_missed_refuted_classes :
-  violates w_rename /\ violates w_connect /\ violates w_check_moved /\ violates w_csn_connect /\
-  (let s := run (v_log w_rename) st0 in
-   res (QCSN "web") (apply 5 (v_c w_rename) s) <> res (QCSN "web") s /\
-   fires (ws (QCSN "web") s) (touched 5 (v_c w_rename) s) = false).
+  violates w_connect /\ violates w_csn_connect /\ violates w_move_stale /\
+  (let s := run (v_log w_move_stale) st0 in
+   res (QCSN "api") (apply 9 (v_c w_move_stale) s) <> res (QCSN "api") s /\
+   fires (ws (QCSN "api") s) (touched 9 (v_c w_move_stale) s) = false).
 Proof. exact refuted_classes_lemma. Qed.
 
-(* partial: for every query outside the Connect pair (okq), every reachable coherent state and every
-   write that does not re-register a service id under another name or a check against another
-   service (safe_cmd); delete-trees on any prefix included *)
+(* partial: for every query outside the Connect pair (okq) and every reachable state in which the
+   checks carry their services' current names (Coherent: only a rename of a service id that has
+   checks breaks it -- the residue of the check-move repair, witness w_move_stale), every write;
+   the one write left out (safe_cmd) is a registration that renames its service id AND carries
+   checks in the same request.  Renames, check moves, check deletes, delete-trees are covered. *)
 Theorem C06_never_missed_partial :
   forall hi s i c q, Reach hi s -> Coherent s -> hi < i -> safe_cmd c s -> safe_query q ->
     res q (apply i c s) <> res q s ->
     idx q s < idx q (apply i c s) /\ fires (ws q s) (touched i c s) = true.
 Proof. exact never_missed_partial_lemma. Qed.
 
-(* the coherence hypothesis is an invariant of the safe writes (and holds initially) *)
+(* the coherence hypothesis holds initially and is kept by every write that registers no service id
+   under another name *)
 Theorem C06_coherent_invariant :
-  Coherent st0 /\ forall i c s, Coherent s -> safe_cmd c s -> Coherent (apply i c s).
+  Coherent st0 /\ forall i c s, Coherent s -> rename_free c s -> Coherent (apply i c s).
 Proof. exact (conj Coherent_st0 Coherent_apply). Qed.
 
 (* ---- the reported index is never zero ---- *)
@@ -45,8 +49,8 @@ Theorem C06_nonzero : forall q s, 1 <= reported q s.
 Proof. exact nonzero_reported. Qed.
 
 (* ---- the index never decreases, except by a tombstone reap ----
-   (still refuted: a service id registered again under another name makes the old name's index fall
-   back to an older service_last_extinction, 6 -> 4) *)
+   (still refuted: CheckConnectServiceNodes reports the maximum over the names currently in the
+   result and falls when the instances of one name leave) *)
 Definition monotone_statement : Prop :=
   forall hi s i c q, Reach hi s -> hi < i -> (forall u, c <> Reap u) -> idx q s <= idx q (apply i c s).
 Theorem C06_monotone_refuted : ~ monotone_statement.
@@ -92,10 +96,23 @@ Example C06_hypotheses_met :
 Proof. exact hypotheses_met_lemma. Qed.
 (* and the refuting writes are exactly the excluded ones *)
 Example C06_hypotheses_exclude_witnesses :
-  ~ safe_cmd (v_c w_rename) (run (v_log w_rename) st0) /\
-  ~ safe_cmd (v_c w_check_moved) (run (v_log w_check_moved) st0) /\
-  ~ okq (v_q w_connect) /\ ~ okq (v_q w_csn_connect).
+  ~ Coherent (run (v_log w_move_stale) st0) /\ ~ okq (v_q w_connect) /\ ~ okq (v_q w_csn_connect).
 Proof. exact hypotheses_exclude_lemma. Qed.
+
+(* ---- regression: the former witnesses of the repaired classes now satisfy the contract ---- *)
+Example C06_repaired_classes :
+  (let s := run (v_log w_rename) st0 in
+   res (QCSN "web") (apply 5 (v_c w_rename) s) <> res (QCSN "web") s /\
+   idx (QSvcNodes "web") s = 3 /\ idx (QSvcNodes "web") (apply 5 (v_c w_rename) s) = 5 /\
+   idx (QCSN "web") (apply 5 (v_c w_rename) s) = 5 /\
+   fires (ws (QCSN "web") s) (touched 5 (v_c w_rename) s) = true) /\
+  (let s := run (v_log w_rename_back) st0 in
+   idx (QSvcNodes "web") s = 6 /\ idx (QSvcNodes "web") (apply 8 (v_c w_rename_back) s) = 8) /\
+  (let s := run (v_log w_check_moved) st0 in
+   res (QCSN "api") (apply 7 (v_c w_check_moved) s) <> res (QCSN "api") s /\
+   idx (QCSN "api") s = 5 /\ idx (QCSN "api") (apply 7 (v_c w_check_moved) s) = 7 /\
+   fires (ws (QCSN "api") s) (touched 7 (v_c w_check_moved) s) = true).
+Proof. exact repaired_classes_lemma. Qed.
 
 
 (* ---- the same contract at the strength the proofs have (audit round) ---- *)
@@ -178,6 +195,7 @@ Print Assumptions C06_wakes.
 Print Assumptions C06_deltree_repaired.
 Print Assumptions C06_hypotheses_met.
 Print Assumptions C06_hypotheses_exclude_witnesses.
+Print Assumptions C06_repaired_classes.
 Print Assumptions C06_never_missed_plain.
 Print Assumptions C06_monotone_plain.
 Print Assumptions C06_highwater.
